@@ -51,6 +51,7 @@ def main():
         ap.error("property id required")
     prog = facts.Program(fdir)
     mod = importlib.import_module("props.%s" % pid.lower())
+    prog.inlining = getattr(mod, "INLINE", True)
     level = getattr(mod, "LEVEL", LEVELS.get(pid, "other"))
     ck = engine.Check(pid, prog, tier=a.tier, seed=seed, level=level)
     ck.facts_dir = fdir
@@ -63,7 +64,9 @@ def main():
             print("ERROR %s" % e)
             return 2
         dev_prog = ck.prog
-        ck.begin_config("release", facts.Program(rdir))
+        rprog = facts.Program(rdir)
+        rprog.inlining = getattr(mod, "INLINE", True)
+        ck.begin_config("release", rprog)
         mod.run(ck)
         ck.prog = dev_prog
         info = dict(info, release=rinfo)
